@@ -98,7 +98,7 @@ def gen_scenario(ctx, k):
             ls, exp = session_lines(rng, kind, dA, dB, cfgA, nodesA, fi)
             sc.add(f'mark sess{i}', *ls)
             if rng.random() < 0.2 and exp == 0:
-                sc.add('mark dbl_start', f'start {dA} 0', 'mark dbl_start_end')     # start while running: must do nothing
+                sc.add('mark dbl_start', f'start {dA} {rng.choice([0, 1, 3, 7, 5000])}', 'mark dbl_start_end')     # start while running (any interval): must do nothing
             sc.add('stop')
             if rng.random() < 0.3:
                 sc.add('mark dbl_stop', 'stop', 'mark dbl_stop_end')                # stop while stopped: must do nothing
@@ -235,6 +235,20 @@ def evaluate(ctx, r, rf, cfg, nodes, sessions, mode, meta):
     if ts and (ts['created'] != ts['joined'] or ts['alive']):
         ctx.violation('thread-bookkeeping', 'create-join', f'threads created {ts["created"]}, joined {ts["joined"]}, alive at exit {ts["alive"]}', r.scenario, r.flavour, meta)
         return
+    # the auto-flush period of a session is the one it was started with - whatever was passed to a later, redundant start or to earlier sessions
+    running, cur_fi = False, None
+    for e in ev:
+        if e.get('e') == 'call' and e.get('f') == 'bidib_start_pointer' and not running:
+            running, cur_fi = True, e.get('fi')
+        elif e.get('e') == 'ret' and e.get('f') == 'bidib_start_pointer' and e.get('r') == 1 and e.get('live_threads') == 0:
+            running = False
+        elif e.get('e') == 'ret' and e.get('f') == 'bidib_stop':
+            running = False
+        elif e.get('e') == 'afsleep':
+            ctx.count('auto_flush_periods_checked')
+            if cur_fi is not None and e['us'] != 1000 * cur_fi:
+                ctx.violation('auto-flush-period', 'session', f'the auto-flush thread of a session started with flush_interval {cur_fi} ms sleeps {e["us"]} us per round', r.scenario, r.flavour, meta)
+                return
     ns = check_stop_transcripts(ctx, r, cfg, nodes, meta)
     if ns is False:
         return
